@@ -1,7 +1,8 @@
-(** NESTED instance requirements: an executable check of the hypothesis ([den_f]: is this kind a tree-shaped nested-flat
-    requirement?), non-vacuity of the nested theorems on concrete histories, and the witnesses that refute the statements
-    once the side condition "every nested interface has exactly one parent" is dropped (the same case lines were replayed on
-    the real aggregator). *)
+(** NESTED instance requirements: an executable check of the hypothesis ([den_f]: is this kind a nested-flat requirement?),
+    non-vacuity of the nested theorems on concrete histories - among them the histories in which one anonymous interface
+    has TWO parents, which refuted the statements before the repair (an anonymous interface is now copied once per mention;
+    the same case lines are replayed on the real aggregator) - and the witness that refutes the statements for nested
+    interfaces WITH an identifier. *)
 From Coq Require Import ZArith ZifyBool ZifyN Lia Permutation.
 From WacV Require Import Str Names NamesSpec Types Checker SubSpec CheckerEq SubSpecProofs CheckerValue CheckerProofs.
 From WacV Require Import Aggregator AggregatorSpec AggregatorFrame AggregatorRemap AggregatorChecker AggregatorNames
@@ -58,37 +59,6 @@ Fixpoint den_f (G d : nat) (T : types) (k : kind) : option (tree * list id) :=
     end
   end.
 
-Lemma NoDup_app_l {B} (a b : list B) : NoDup (a ++ b) -> NoDup a.
-Proof.
-  induction a as [|x a IH]; cbn [app]; intros ND; constructor; inversion ND as [|? ? Hn ND']; subst; auto.
-  intros X. apply Hn. apply in_or_app. now left.
-Qed.
-Lemma NoDup_app_r {B} (a b : list B) : NoDup (a ++ b) -> NoDup b.
-Proof. induction a as [|x a IH]; cbn [app]; auto. intros ND. inversion ND; subst. auto. Qed.
-Lemma NoDup_flat_in {A B} (f : A -> list B) l x : NoDup (flat_map f l) -> In x l -> NoDup (f x).
-Proof.
-  induction l as [|a l IH]; cbn [flat_map]; [intros _ []|]. intros ND [->|Hin].
-  - apply NoDup_app_l in ND. exact ND.
-  - apply IH; auto. apply NoDup_app_r in ND. exact ND.
-Qed.
-Lemma NoDup_app_disj {B} (a b : list B) x : NoDup (a ++ b) -> In x a -> ~ In x b.
-Proof.
-  induction a as [|y a IH]; cbn [app]; [intros _ []|]. intros ND [->|Hin] Hb.
-  - inversion ND as [|? ? Hn _]; subst. apply Hn. apply in_or_app. now right.
-  - inversion ND as [|? ? _ ND']; subst. exact (IH ND' Hin Hb).
-Qed.
-Lemma NoDup_flat_disj {A B} (f : A -> list B) l x y j :
-  NoDup l -> NoDup (flat_map f l) -> In x l -> In y l -> x <> y -> In j (f x) -> ~ In j (f y).
-Proof.
-  induction l as [|a l IH]; cbn [flat_map]; [intros _ _ []|]. intros NDl ND Hx Hy N Hjx Hjy.
-  inversion NDl as [|? ? Hn NDl']; subst.
-  destruct Hx as [->|Hx], Hy as [->|Hy].
-  - contradiction.
-  - apply (NoDup_app_disj _ _ j ND Hjx). apply in_flat_map. eauto.
-  - apply (NoDup_app_disj _ _ j ND Hjy). apply in_flat_map. eauto.
-  - apply NoDup_app_r in ND. exact (IH NDl' ND Hx Hy N Hjx Hjy).
-Qed.
-
 Lemma den_kids_sound F : forall exs e ol, den_kids F exs = Some (e, ol) -> NoDup (map fst exs) ->
   kids (fun k tr ids => F k = Some (tr, ids)) (own_of ol) exs e.
 Proof.
@@ -104,51 +74,38 @@ Proof.
 Qed.
 
 Lemma iden_f_sound (P : kind -> tree -> list id -> Prop) F T y oid e ids :
-  (forall k tr ids0, F k = Some (tr, ids0) -> NoDup ids0 -> P k tr ids0) ->
-  iden_f F T y = Some (oid, e, ids) -> NoDup ids -> IDenP P T y oid e ids.
+  (forall k tr ids0, F k = Some (tr, ids0) -> P k tr ids0) ->
+  iden_f F T y = Some (oid, e, ids) -> IDenP anyshape P T y oid e ids.
 Proof.
-  intros HF H ND. unfold iden_f in H. destruct (get_if T y) as [[oid0 [|] exs]|] eqn:Hg; try discriminate.
+  intros HF H. unfold iden_f in H. destruct (get_if T y) as [[oid0 [|] exs]|] eqn:Hg; try discriminate.
   destruct (nodupb (map fst exs)) eqn:Hn; [|discriminate]. apply nodupb_sound in Hn.
   destruct (den_kids F exs) as [[e0 ol]|] eqn:Ek; [|discriminate]. injection H as <- <- <-.
-  inversion ND as [|? ? Hy ND']; subst.
-  exists exs, (own_of ol). split; [exact Hg|]. split; [exact Hn|]. split; [|split; [split|reflexivity]].
-  - eapply kids_impl; [|eapply den_kids_sound; eauto]. intros n k tr Hin Hf. apply HF; auto.
-    apply (NoDup_flat_in (own_of ol) (map fst exs) n ND'). change n with (fst (n, k)). now apply in_map.
-  - intros n Hin Hj. apply Hy. apply in_flat_map. eauto.
-  - intros n m j Hin Him N. now apply (NoDup_flat_disj (own_of ol) (map fst exs) n m j Hn ND').
+  exists exs, (own_of ol). split; [exact Hg|]. split; [exact Hn|]. split; [|split; [exact Logic.I|reflexivity]].
+  eapply kids_impl; [|eapply den_kids_sound; eauto]. intros n k tr Hin Hf. now apply HF.
 Qed.
 
-Lemma den_f_sound G T : forall d k tr ids, den_f G d T k = Some (tr, ids) -> NoDup ids -> Den d T k tr ids.
+Lemma den_f_sound G T : forall d k tr ids, den_f G d T k = Some (tr, ids) -> SDen d T k tr ids.
 Proof.
-  induction d as [|d IH]; intros k tr ids H ND; [discriminate|]. cbn [den_f] in H.
+  induction d as [|d IH]; intros k tr ids H; [discriminate|]. cbn [den_f] in H.
   assert (Hleaf : (if leafk k then match unfold G T k with
                                    | Some tr => if resfree tr then Some (tr, []) else None
                                    | None => None
-                                   end else None) = Some (tr, ids) -> Den (S d) T k tr ids).
+                                   end else None) = Some (tr, ids) -> SDen (S d) T k tr ids).
   { destruct (leafk k) eqn:L; [|discriminate]. destruct (unfold G T k) as [tr0|] eqn:U; [|discriminate].
-    destruct (resfree tr0) eqn:R; [|discriminate]. intros X. injection X as <- <-. cbn [Den]. left.
+    destruct (resfree tr0) eqn:R; [|discriminate]. intros X. injection X as <- <-. cbn [DenG]. left.
     split; [|reflexivity]. split; auto. split; auto. now exists G. }
   destruct k as [x|f|y|w|m|v]; try (now apply Hleaf).
   destruct (iden_f (den_f G d T) T y) as [[[[nm|] e] ids0]|] eqn:E; try discriminate. injection H as <- <-.
-  cbn [Den]. right. exists y, e. split; auto. split; auto. eapply iden_f_sound; eauto.
+  cbn [DenG]. right. exists y, e. split; auto. split; auto. eapply iden_f_sound; eauto.
 Qed.
-Lemma iden_f_den G T d y oid e ids : iden_f (den_f G d T) T y = Some (oid, e, ids) -> NoDup ids -> IDen d T y oid e ids.
-Proof. intros H ND. eapply iden_f_sound; eauto. intros k tr ids0. apply den_f_sound. Qed.
-
-Fixpoint nodup_idb (l : list id) : bool :=
-  match l with [] => true | x :: r => negb (existsb (id_eqb x) r) && nodup_idb r end.
-Lemma nodup_idb_sound l : nodup_idb l = true -> NoDup l.
-Proof.
-  induction l as [|x l IH]; cbn [nodup_idb]; intros H; constructor; apply andb_true_iff in H as [H1 H2]; auto.
-  intros Hin. apply negb_true_iff in H1. assert (X : existsb (id_eqb x) l = true); [|congruence].
-  apply existsb_exists. exists x. split; auto. apply ideqb_refl.
-Qed.
+Lemma iden_f_den G T d y oid e ids : iden_f (den_f G d T) T y = Some (oid, e, ids) -> SIDen d T y oid e ids.
+Proof. intros H. eapply iden_f_sound; eauto. intros k tr ids0. apply den_f_sound. Qed.
 
 (** the executable form of "contribution [c] is a nested contribution": *)
 Definition ncontrib_b (G d : nat) (c : str * (types * kind)) : bool :=
   match snd (snd c) with
   | KInstance i => match iden_f (den_f G d (fst (snd c))) (fst (snd c)) i with
-                   | Some (oid, e, ids) => nodup_idb ids && match oid with None => true | Some nm => str_eqb nm (fst c) end
+                   | Some (oid, e, ids) => match oid with None => true | Some nm => str_eqb nm (fst c) end
                    | None => false
                    end
   | _ => false
@@ -158,9 +115,8 @@ Lemma ncontrib_b_sound (Col : types -> Prop) G d c :
 Proof.
   intros Ct OF H. unfold ncontrib_b in H. destruct (snd (snd c)) as [| |i| | |] eqn:Ek; try discriminate.
   destruct (iden_f (den_f G d (fst (snd c))) (fst (snd c)) i) as [[[oid e] ids]|] eqn:E; [|discriminate].
-  apply andb_true_iff in H as [H1 H2]. apply nodup_idb_sound in H1.
   exists (XInst e), ids. split; auto. split; auto. exists d, i, oid, e. split; auto. split; [eapply iden_f_den; eauto|].
-  split; auto. destruct oid as [nm|]; auto. right. apply seqb_eq in H2. now subst.
+  split; auto. destruct oid as [nm|]; auto. right. apply seqb_eq in H. now subst.
 Qed.
 
 (** * Non-vacuity: three versions of one track, interfaces named by their import name, nested two levels deep
@@ -197,8 +153,6 @@ Proof.
   repeat constructor; apply (ncontrib_b_sound deep_col 4 3); cbn [fst snd]; try (apply OF; reflexivity);
     try (vm_compute; reflexivity); unfold deep_col; auto.
 Qed.
-Lemma w_deep_once : once deep_col w_deep.
-Proof. apply once_tags. repeat constructor; cbn; intuition discriminate. Qed.
 Example deep_run :
   exists a s, run w_deep = inl (a, s) /\ map fst (imports a) = [n_023] /\
     merged_tree a n_021 =
@@ -216,10 +170,13 @@ Example deep_run :
     match merged_tree a n_021 with Some t => Some [(n_023, t)] | None => None end.
 Proof. eexists _, _. conj_vc. Qed.
 
-(** * Refutation 1: a nested interface with TWO parents inside one contributor.
-      foo: {n: I, m: I} with I = {f}  (one interface under two export names), then foo: {n: {g}}.
-      [remap_interface] copies I once; the merge below [n] also enlarges [m]: the merged requirement demands [g] of [m]
-      although no contributor asked for it - it is not the union (every contributor is still satisfied). *)
+(** * Regression (known finding nested-interface-with-two-parents, repaired): a nested interface with TWO parents inside
+      one contributor.
+      foo: {n: I, m: I} with I = {f}  (one anonymous interface under two export names), then foo: {n: {g}}.
+      Before the repair [remap_interface] copied I once and the merge below [n] also enlarged [m]: the merged requirement
+      demanded [g] of [m] although no contributor asked for it.  Now every mention of I gets its own copy and the merged
+      requirement is the union {n: {f, g}, m: {f}}.  Both contributions are nested contributions ([ncontrib_b]): the
+      theorems of section 4 of props/C09.v apply to this history. *)
 Definition w_dag_t0 : types :=
   mktypes 1 [] [] [mkfunc [] None false]
     [mkif None [] [([102], KFunc (mkid 1 0))];
@@ -236,27 +193,42 @@ Definition foo : str := [102;111;111].
 Definition w_dag : list (str * (types * kind)) :=
   [(foo, (w_dag_t0, KInstance (mkid 1 1))); (foo, (w_dag_t1, KInstance (mkid 2 1)))].
 Definition w_dag3 : list (str * (types * kind)) := w_dag ++ [(foo, (w_dag_t2, KInstance (mkid 3 1)))].
-
-Theorem shared_child_not_union :
-  exists l a s tm ta tb tu, run l = inl (a, s) /\ length l = 2%nat /\ merged_tree a foo = Some tm /\
-    req_tree (nth 0 l dflt) = Some ta /\ req_tree (nth 1 l dflt) = Some tb /\ tmerge ta tb = Some tu /\
-    sub_b tu tm = false /\ sub_b tm ta = true /\ sub_b tm tb = true /\
-    ncontrib_b 4 3 (nth 0 l dflt) = false /\ ncontrib_b 4 3 (nth 1 l dflt) = true.
-Proof. exists w_dag. eexists _, _, _, _, _, _. conj_vc. Qed.
-
-(** ... and a third contribution {m: {g: func(x: u8)}} that conflicts with nothing anybody required (the specification
-    merges all three) is rejected after the first two, while other orders succeed: success depends on the order *)
-Theorem shared_child_fails_without_conflict :
-  exists l l' p e a s ta tb tc tab tabc, Permutation l l' /\ run l = inr (p, AErr e) /\ run l' = inl (a, s) /\
-    length l = 3%nat /\
-    req_tree (nth 0 l dflt) = Some ta /\ req_tree (nth 1 l dflt) = Some tb /\ req_tree (nth 2 l dflt) = Some tc /\
-    tmerge ta tb = Some tab /\ tmerge tab tc = Some tabc.
+Definition dag_col (t : types) : Prop := t = w_dag_t0 \/ t = w_dag_t1 \/ t = w_dag_t2.
+Lemma dag_col_same t1 t2 : dag_col t1 -> dag_col t2 -> t_tag t1 = t_tag t2 -> t1 = t2.
+Proof. intros [->|[->| ->]] [->|[->| ->]]; cbn; auto; discriminate. Qed.
+Lemma dag_col_tag t : dag_col t -> t_tag t <> 0.
+Proof. intros [->|[->| ->]]; cbn; discriminate. Qed.
+Lemma w_dag3_nested : Forall (nested_contrib dag_col) w_dag3.
 Proof.
-  exists w_dag3, [nth 1 w_dag3 dflt; nth 2 w_dag3 dflt; nth 0 w_dag3 dflt]. eexists _, _, _, _, _, _, _, _, _.
-  split; [unfold w_dag3, w_dag; cbn [app nth]; apply Permutation_cons_append|]. conj_vc.
+  assert (OF : forall t, t_resources t = [] -> owner_free t) by (intros t E r H; rewrite E in H; contradiction).
+  repeat constructor; apply (ncontrib_b_sound dag_col 4 3); cbn [fst snd]; try (apply OF; reflexivity);
+    try (vm_compute; reflexivity); unfold dag_col; auto.
 Qed.
 
-(** * Refutation 2: sharing through the interface table.  A nested interface with an identifier is unified with the
+Theorem shared_child_now_union :
+  exists a s tm ta tb, run w_dag = inl (a, s) /\ merged_tree a foo = Some tm /\
+    req_tree (nth 0 w_dag dflt) = Some ta /\ req_tree (nth 1 w_dag dflt) = Some tb /\ tmerge ta tb = Some tm /\
+    tm = XInst [([110], XInst [([102], XFunc (mkft [] None false)); ([103], XFunc (mkft [] None false))]);
+                ([109], XInst [([102], XFunc (mkft [] None false))])] /\
+    sub_b tm ta = true /\ sub_b tm tb = true /\
+    ncontrib_b 4 3 (nth 0 w_dag dflt) = true /\ ncontrib_b 4 3 (nth 1 w_dag dflt) = true.
+Proof. eexists _, _, _, _, _. conj_vc. Qed.
+
+(** ... and a third contribution {m: {g: func(x: u8)}}, which conflicts with nothing anybody required (the specification
+    merges all three), is accepted in every order; the merged requirement is the specification's in both orders (before the
+    repair the order 1,2,3 failed and 2,3,1 succeeded) *)
+Theorem shared_child_order_independent :
+  exists l' a s a' s' ta tb tc tab tabc, Permutation w_dag3 l' /\ run w_dag3 = inl (a, s) /\ run l' = inl (a', s') /\
+    req_tree (nth 0 w_dag3 dflt) = Some ta /\ req_tree (nth 1 w_dag3 dflt) = Some tb /\ req_tree (nth 2 w_dag3 dflt) = Some tc /\
+    tmerge ta tb = Some tab /\ tmerge tab tc = Some tabc /\ merged_tree a foo = Some tabc /\
+    exists t', merged_tree a' foo = Some t' /\ sub_b t' tabc = true /\ sub_b tabc t' = true.
+Proof.
+  exists [nth 1 w_dag3 dflt; nth 2 w_dag3 dflt; nth 0 w_dag3 dflt]. eexists _, _, _, _, _, _, _, _, _.
+  split; [unfold w_dag3, w_dag; cbn [app nth]; apply Permutation_cons_append|].
+  repeat (match goal with |- _ /\ _ => split; [vm_compute; reflexivity|] end). eexists. conj_vc.
+Qed.
+
+(** * Refutation: sharing through the interface table.  A nested interface with an identifier is unified with the
       interface of that identifier already in the table: foo: {n: d{f}}, then bar: {n: d{g}} - both [n]s are ONE interface
       afterwards, so foo requires [g] below [n] although only bar asked for it (known finding
       interface-id-under-two-import-names, nested form). *)
